@@ -29,7 +29,8 @@ def _compile(entry):
     # region predicates may use helper predicates exported by the bounded module of their property
     env["parts"] = lambda p: importlib.import_module("contracts.parts.%s_bounded" % p)
     code = compile(entry["region"], "<known-finding %s>" % entry.get("id"), "eval")
-    return lambda i, what="": eval(code, env, {"i": i, "case": i, "what": what})
+    # one namespace (not globals + locals): comprehensions inside a region expression only see globals
+    return lambda i, what="": eval(code, dict(env, i=i, case=i, what=what))
 
 
 def for_obligation_prefix(contract_name):
